@@ -2,7 +2,7 @@ SPECIFICATION Spec
 CONSTANTS
   N = 3
   NT = 2
-  Prios = {0, 1, 2}
+  Prios = {1, 2}
   InRuns = {"no"}
   Lates = {FALSE}
   MaxIdle = 1
